@@ -52,12 +52,12 @@ def cls_of(sc):
 def extra(ctx, sc, r):
     n = appcheck.size_of(sc)
     if r["live_max"] > 1:
-        ctx.violate("resources", "two-transports-open", sc, "at most one live transport", f"max live = {r['live_max']}", size=n)
+        ctx.violate("resources", appcheck.qualify("two-transports-open", sc), sc, "at most one live transport", f"max live = {r['live_max']}", size=n)
     for i, al in enumerate(r["alive"]):
         if al:
-            ctx.violate("resources", "ping-thread-alive-at-return", sc, "no ping thread after return", str(al), size=n)
+            ctx.violate("resources", appcheck.qualify("ping-thread-alive-at-return", sc), sc, "no ping thread after return", str(al), size=n)
     if r["leaked"]:
-        ctx.violate("resources", "transport-open-and-reachable-after-return", sc, "every transport closed or unreachable",
+        ctx.violate("resources", appcheck.qualify("transport-open-and-reachable-after-return", sc), sc, "every transport closed or unreachable",
                     str(r["leaked"]), size=n)
 
 
